@@ -295,6 +295,35 @@ fn constructors(rng: &mut Rng, out: &mut CaseOut) {
             d.reset(k, r, size)
         }),
     );
+    // new(.., Some(work)) with a working space that another codec (any rate
+    // that supports the triple) has already set up for exactly this triple
+    if size != 0 && size % 2 == 0 && api != Api::Wrapper {
+        for donor in RateKind::ALL {
+            if !gen::rate_ok(donor, k, r) {
+                continue;
+            }
+            let dapi = Api::Rate(donor, EngineKind::NoSimd);
+            judge(
+                "new-encoder-with-recycled-work",
+                guarded(|| {
+                    let work = codec::make_enc(dapi, k, r, size, None).expect("donor").into_work();
+                    let mut e = codec::make_enc(api, k, r, size, work)?;
+                    // a constructor that succeeds must hand out a working object
+                    for _ in 0..k.min(3) {
+                        e.add(&vec![7u8; size])?;
+                    }
+                    Ok(())
+                }),
+            );
+            judge(
+                "new-decoder-with-recycled-work",
+                guarded(|| {
+                    let work = codec::make_dec(dapi, k, r, size, None).expect("donor").into_work();
+                    codec::make_dec(api, k, r, size, work).map(|_| ())
+                }),
+            );
+        }
+    }
     out.tag(format!("ctor:{}:{}", rate.name(), if want_ok { "valid" } else { "invalid" }));
     out.nontrivial_key(&format!("ctor/{desc}"));
     out.sample = Some(jobj(&[("constructor", jstr(&desc))]));
